@@ -22,8 +22,11 @@ from vf.core import sh
 
 HERE = os.path.dirname(os.path.abspath(__file__))
 
-# defects of /repo found by this check and reported (proposed-fixes/C15-*.diff); until the lead either
-# applies the fix or lists them in known-findings.txt their witnesses are logged, not failed.
+# defects of /repo found by this check and reported (proposed-fixes/C15-*.diff).  Disposition of a witness that
+# still reproduces:  known-findings.txt has `fixed: property=C15 <commit> <key> ...`  -> VIOLATION (regression);
+# `finding: property=C15 key=<key> ...` -> KNOWN-FINDING line;  neither (the lead has not decided yet) -> logged and
+# recorded in the evidence, the generators stay out of the class.  Once a witness stops reproducing the generators
+# enter the class (adversarial command lines, executable names, uncut flame counts).
 REPORTED = {
     "chrome-cmdline-escape": "dump --chrome prints info.cmdline raw: json_quote escapes only the double quote, "
                              "a TAB or backslash in argv gives invalid JSON",
@@ -90,7 +93,7 @@ class NamePool:
         return n if name_ok(n) else b"n" + bytes(b for b in n if b not in FORBIDDEN_NAME_BYTES)
 
 
-def gen_case(rng, pool, big=False):
+def gen_case(rng, pool, big=False, avoid_trunc=True):
     """returns dict(tasks=[(tid,pid,ppid)], syms=[bytes], recs=[(tid, is_entry, symidx, t)], sample=int, exe=str)"""
     nsym = rng.randrange(1, 7 if not big else 12)
     syms = [pool.one() for _ in range(nsym)]
@@ -148,7 +151,7 @@ def gen_case(rng, pool, big=False):
     # shortest name has bytes (conservative bounds: all entries / the sum of all call durations)
     nent = sum(1 for r in recs if r[1])
     minlen = min(len(n) for n in syms)
-    while nent >= 10 ** minlen:
+    while avoid_trunc and nent >= 10 ** minlen:
         syms = [n + b"_" if len(n) == minlen else n for n in syms]
         minlen += 1
     total = 0
@@ -162,7 +165,9 @@ def gen_case(rng, pool, big=False):
             total += tm - opened[tid].pop()
     for tid, st in opened.items():
         total += sum(lastt[tid] - t0 for t0 in st)
-    sample = max(sample, total // (10 ** min(minlen, 18) - 1) + 1)
+    if avoid_trunc:
+        sample = max(sample, total // (10 ** min(minlen, 18) - 1) + 1)
+    sample = min(sample, 999999999)
     exe = rng.choice(["prog", "prog", "a.out", "t-abc_1.2", "x"])
     return {"tasks": tasks, "syms": syms, "recs": recs, "sample": max(1, sample), "exe": exe}
 
@@ -388,12 +393,13 @@ Local Open Scope uint63_scope.
 KINDS = ["graph", "flame0", "flameS", "dot", "mermaid", "chrome"]
 
 
-def evaluate_cases(ctx, cases, parsed, name="cases"):
+def evaluate_cases(ctx, cases, parsed, name="cases", flame_fixed=False):
     defs = "Definition cases : list case := [\n%s\n].\n" % ";\n".join(ccase(c, p) for c, p in zip(cases, parsed))
     evals = [("wf", "bad_indices wf_case cases 0"), ("trunc_flame0", "bad_indices fits_flame0 cases 0"),
              ("trunc_flameS", "bad_indices fits_flameS cases 0")]
     for k in KINDS:
-        evals.append(("mismatch_" + k, "bad_indices agree_%s cases 0" % k))
+        arg = (" true" if flame_fixed else " false") if k.startswith("flame") else ""
+        evals.append(("mismatch_" + k, "bad_indices (agree_%s%s) cases 0" % (k, arg)))
         evals.append(("violation_" + k, "bad_indices okc_%s cases 0" % k))
     res = coq.run_cases(ctx, name, PRE, defs, evals)
     if res is None:
@@ -420,8 +426,8 @@ def case_from_json(j):
             "recs": [tuple(r) for r in j["recs"]], "sample": j["sample"], "exe": j["exe"]}
 
 
-def run_case(objdir, c, d, cmdline=b"prog arg"):
-    write_dir(c, d, cmdline=cmdline)
+def run_case(objdir, c, d, cmdline=b"prog arg", with_cmdline=True):
+    write_dir(c, d, cmdline=cmdline, with_cmdline=with_cmdline)
     o = run_outputs(objdir, d, c["sample"])
     ok, evs, meta, doc = parse_chrome(o["chrome"])
     p = {"graph": parse_graph(o["graph"]), "flame0": parse_flame(o["flame0"]), "flameS": parse_flame(o["flameS"]),
@@ -542,7 +548,11 @@ def report_defect(ctx, key, still, replay):
         ctx.log("defect %s no longer reproduces (fixed?)" % key)
         ctx.extra.setdefault("defects_not_reproduced", []).append(key)
         return
-    if ctx.kf.listed(ctx.prop, key):
+    if any(("property=%s" % ctx.prop) in l and key in l for l in ctx.kf.fixed):
+        # known-findings.txt says this one was repaired (`fixed: property=C15 <commit> <key> ...`): a regression
+        ctx.violation("defect %s is back although known-findings.txt lists it as fixed: %s" % (key, REPORTED.get(key, "")),
+                      replay, True)
+    elif ctx.kf.listed(ctx.prop, key):
         ctx.known_finding(key, REPORTED[key], True, replay)
     elif key in REPORTED:
         ctx.log("DEFECT reproduced (reported, proposed-fixes/C15-*.diff; not yet in known-findings.txt): %s: %s"
@@ -552,35 +562,56 @@ def report_defect(ctx, key, still, replay):
         ctx.known_finding(key, "unlisted", True, replay)
 
 
+def flame_witness_case():
+    """f called 13 times, 1000 ns each (sampled at 1 ns: 1000 samples per call)"""
+    wrecs = []
+    for i in range(13):
+        wrecs += [(100, True, 0, 5000 + 2000 * i), (100, False, 0, 6000 + 2000 * i)]
+    return {"tasks": [(100, 100, None)], "syms": [b"f"], "recs": wrecs, "sample": 1, "exe": "prog"}
+
+
 def witnesses(ctx, objdir, hexe):
+    """runs the witnesses of the reported defects; returns {key: still reproduces}"""
     base = {"tasks": [(100, 100, None)], "syms": [b"main", b"f"], "sample": 1, "exe": "prog",
             "recs": [(100, True, 0, 1000), (100, True, 1, 1100), (100, False, 1, 1200), (100, False, 0, 1300)]}
     d = os.path.join(ctx.scratch, "wit")
+    repro = {}
 
     def chrome_ok(**kw):
         write_dir(base, d, **kw)
         rc, out, err = uft(objdir, ["dump", "--chrome", "--no-pager", "-d", d])
         return parse_chrome(out)[0], out
     # 1. TAB / backslash in the command line (as `record` stores it: through the real json_quote)
+    bad = False
     for raw in (b"prog\0a\tb\0", b"prog\0a\\\"b\0", b"prog\0\\\0"):
         cl = harness_batch(hexe, [("Q", raw)])[0].rstrip(b" ")
         ok, out = chrome_ok(cmdline=cl)
         ctx.case(key=("wit", raw), tags=["witness:cmdline"])
-        if raw == b"prog\0a\tb\0" or not ok:
-            report_defect(ctx, "chrome-cmdline-escape", not ok, {"kind": "witness", "cmdline_raw": raw.hex()})
-            break
+        bad = bad or not ok
+    repro["chrome-cmdline-escape"] = bad
+    report_defect(ctx, "chrome-cmdline-escape", bad, {"kind": "witness", "cmdline_raw": b"prog\0a\tb\0".hex()})
     # 2. no CMDLINE in the info mask
     ok, out = chrome_ok(with_cmdline=False)
     ctx.case(key=("wit", "nocmdline"), tags=["witness:no-cmdline"])
+    repro["chrome-no-cmdline-comma"] = not ok
     report_defect(ctx, "chrome-no-cmdline-comma", not ok, {"kind": "witness", "with_cmdline": False})
     # 3. a double quote in the executable's name (task->comm)
     ok, out = chrome_ok(exename='/fake/pr"og')
     ctx.case(key=("wit", "comm"), tags=["witness:comm"])
+    repro["chrome-comm-escape"] = not ok
     report_defect(ctx, "chrome-comm-escape", not ok, {"kind": "witness", "exename": '/fake/pr"og'})
-    # sanity: the plain directory is valid JSON, with the two metadata events per task and the footer
+    # 4. the count of a flame line is cut to the length of the path text
+    write_dir(flame_witness_case(), d)
+    rc, out, err = uft(objdir, ["dump", "--flame-graph", "--no-pager", "-d", d])
+    ctx.case(key=("wit", "flame"), tags=["witness:flame-count"])
+    repro["flame-count-truncated"] = out.strip() != b"f 13"
+    report_defect(ctx, "flame-count-truncated", repro["flame-count-truncated"],
+                  {"kind": "witness", "flame": True, "printed": out.decode("latin-1")})
+    # sanity: the plain directory is valid JSON
     ok, out = chrome_ok()
     if not ok:
         ctx.violation("dump --chrome of a plain 4-record trace is not valid JSON", {"kind": "witness", "plain": True}, True)
+    return repro
 
 
 # ---------------------------------------------------------------------------------------------
@@ -619,7 +650,7 @@ def common_meta(ctx):
     ]
 
 
-def verdict(ctx, cases, parsed, res):
+def verdict(ctx, cases, parsed, res, flame_fixed=False):
     if res is None:
         return
     if res["wf"]:
@@ -627,11 +658,10 @@ def verdict(ctx, cases, parsed, res):
     anyviol = False
     for k in ("flame0", "flameS"):
         # a wrong count inside the class of the reported truncation defect is that defect, not a new one
-        inclass = [i for i in res["violation_" + k] if i in res["trunc_" + k]]
-        res["violation_" + k] = [i for i in res["violation_" + k] if i not in res["trunc_" + k]]
+        inclass = [] if flame_fixed else [i for i in res["violation_" + k] if i in res["trunc_" + k]]
+        res["violation_" + k] = [i for i in res["violation_" + k] if i not in inclass]
         if inclass:
-            report_defect(ctx, "flame-count-truncated", True,
-                          {"kind": "dir", "output": k, "case": case_json(cases[inclass[0]], parsed[inclass[0]])})
+            ctx.log("%d %s outputs differ from the trace only by the reported count truncation" % (len(inclass), k))
         ctx.tag("flame-count-needs-more-digits-than-names:" + k, len(res["trunc_" + k]))
     for k in KINDS:
         for i in res["violation_" + k][:2]:
@@ -687,44 +717,67 @@ def tags_of(c):
     return t
 
 
+ADV_EXE = ['pr"og', "a\\b", "q'uote", "x\x7fy", "caf\u00e9", 'e"\\"']
+
+
+def adversarial_cmdline(rng, pool, hexe):
+    args = [b"prog"]
+    for _ in range(rng.randrange(1, 4)):
+        args.append(rng.choice([b"a\tb", b"\\", b'a\\"b', b'"', b"\x01", b"\x7f", b"\xff\xfe", "\u00e9".encode(), b"x y",
+                                b"\\n", b"\\u12", pool.one()]))
+    raw = b"\0".join(a.replace(b"\0", b"") for a in args) + b"\0"
+    return harness_batch(hexe, [("Q", raw)])[0].rstrip(b" ").replace(b"\n", b" ")
+
+
 def run(ctx):
     common_meta(ctx)
     objdir, hexe = setup(ctx)
     pool = NamePool(ctx.rng)
     check_escapes(ctx, hexe, pool)
-    witnesses(ctx, objdir, hexe)
+    repro = witnesses(ctx, objdir, hexe)
+    flame_fixed = not repro["flame-count-truncated"]
+    ctx.extra["flame_count_printed_in_full"] = flame_fixed
     cases, parsed = [], []
     fixed = [
         {"tasks": [(100, 100, None)], "syms": [b"main"], "recs": [(100, True, 0, 1000)], "sample": 1, "exe": "prog"},
         {"tasks": [(100, 100, None)], "syms": [b"a", b"a"], "sample": 3, "exe": "prog",
          "recs": [(100, True, 0, 1000), (100, True, 1, 1000), (100, False, 1, 1000), (100, False, 0, 1000)]},
+        flame_witness_case(),
     ]
-    # witness of flame-count-truncated: f called 13 times, 1000 ns each, sampled at 1 ns
-    wrecs = []
-    for i in range(13):
-        wrecs += [(100, True, 0, 5000 + 2000 * i), (100, False, 0, 6000 + 2000 * i)]
-    fixed.append({"tasks": [(100, 100, None)], "syms": [b"f"], "recs": wrecs, "sample": 1, "exe": "prog"})
     n = ctx.n(90, 1200)
     d = os.path.join(ctx.scratch, "dir")
     for i in range(n + len(fixed)):
-        c = fixed[i] if i < len(fixed) else gen_case(ctx.rng, pool, big=(i % 7 == 0))
+        c = fixed[i] if i < len(fixed) else gen_case(ctx.rng, pool, big=(i % 7 == 0),
+                                                     avoid_trunc=not (flame_fixed and i % 3 == 0))
+        kw = {}
+        extra_tags = []
+        # a defect class is entered by the generator only once its witness stopped reproducing
+        if not repro["chrome-cmdline-escape"] and i % 2 == 0:
+            kw["cmdline"] = adversarial_cmdline(ctx.rng, pool, hexe)
+            extra_tags.append("cmdline:adversarial")
+        if not repro["chrome-no-cmdline-comma"] and i % 5 == 0:
+            kw["with_cmdline"] = False
+            extra_tags.append("cmdline:absent")
+        if not repro["chrome-comm-escape"] and i % 3 == 1 and i >= len(fixed):
+            c["exe"] = ctx.rng.choice(ADV_EXE)
+            extra_tags.append("comm:adversarial")
         try:
-            p = run_case(objdir, c, d)
+            p = run_case(objdir, c, d, **kw)
         except ParseError as e:
             ctx.violation("an export of a well-formed trace could not be parsed back: %s" % e,
                           {"kind": "dir", "case": case_json(c)}, True)
             continue
         cases.append(c)
         parsed.append(p)
-        ctx.case(key=("dir", tuple(c["syms"]), tuple(c["recs"])), nontrivial=len(c["recs"]) >= 2, tags=tags_of(c),
-                 size=len(c["recs"]),
+        ctx.case(key=("dir", tuple(c["syms"]), tuple(c["recs"])), nontrivial=len(c["recs"]) >= 2,
+                 tags=tags_of(c) + extra_tags, size=len(c["recs"]),
                  sample=case_json(c, p) if len(ctx.samples) < 2 and 4 <= len(c["recs"]) <= 10 else None)
     seen = set()
     for c in cases:
         seen.update(b"".join(c["syms"]))
     ctx.extra["name_byte_values_covered"] = len(seen)
-    res = evaluate_cases(ctx, cases, parsed)
-    verdict(ctx, cases, parsed, res)
+    res = evaluate_cases(ctx, cases, parsed, flame_fixed=flame_fixed)
+    verdict(ctx, cases, parsed, res, flame_fixed)
 
 
 def replay(ctx, obj):
@@ -733,11 +786,12 @@ def replay(ctx, obj):
     kind = obj.get("kind")
     if kind == "dir":
         c = case_from_json(obj["case"])
+        flame_fixed = not witnesses(ctx, objdir, hexe)["flame-count-truncated"]
         p = run_case(objdir, c, os.path.join(ctx.scratch, "dir"))
         ctx.case(key="replay", sample=case_json(c, p))
-        res = evaluate_cases(ctx, [c], [p])
+        res = evaluate_cases(ctx, [c], [p], flame_fixed=flame_fixed)
         ctx.log("replayed directory case:", res)
-        verdict(ctx, [c], [p], res)
+        verdict(ctx, [c], [p], res, flame_fixed)
     elif kind in ("escape", "quote", "mismatch_esc", "mismatch_quo"):
         s = bytes.fromhex(obj["input"])
         q = kind in ("quote", "mismatch_quo")
